@@ -15,6 +15,9 @@ func judgeC11(sc *BatchSc, x *batchExec, br batchRun, fail string) Verdict {
 		// "deadlock: all goroutines in bubble are blocked" = the run hangs
 		return bad("C11:hang", "%s", fail)
 	}
+	if br.Rejected {
+		return ok(false, "prep-form-rejected")
+	}
 	if br.Panic != "" {
 		return bad("C11:panic", "%s", br.Panic)
 	}
